@@ -12,7 +12,7 @@ import time
 import numpy as np
 import z3
 
-FEAS_TIMEOUT_MS = 5000
+FEAS_TIMEOUT_MS = 2500
 PI = math.pi
 
 
@@ -79,6 +79,7 @@ class Ctx:
         self.lazy_sqrt = False
         self._keep = []
         self.incremental = False
+        self.defined_ids = set()
         self._inc = None
         self.sqrt_memo = {}   # (radicand ast id, lazy) -> (y, nan condition, radicand kept alive)
 
@@ -95,6 +96,8 @@ class Ctx:
         self.conds.append(c)
         self.cond_vars.append(self.vars_of(c))
         self.cond_def.append(defines.get_id() if defines is not None else None)
+        if defines is not None:
+            self.defined_ids.add(defines.get_id())
         if self._inc is not None:
             self._inc.add(c)
 
@@ -145,7 +148,10 @@ class Ctx:
                 if picked[i]:
                     continue
                 d = self.cond_def[i]
-                if (d in rel) if d is not None else (vs & rel):
+                # a branch condition over a derived variable (sqrt!k) is only pulled in when that variable
+                # is already relevant: otherwise every query about the inputs would drag in its non-linear
+                # definition (dropping a condition over-approximates, which is sound for `unsat`)
+                if (d in rel) if d is not None else ((vs & rel) and (vs & self.defined_ids) <= rel):
                     picked[i] = True
                     if not vs <= rel:
                         rel |= vs
